@@ -33,6 +33,7 @@ import Pandora.Bridge.C02Leaf
 import Pandora.Proofs.C02Big
 import Pandora.Bridge.C02Const
 import Pandora.Proofs.C02R6Compose
+import Pandora.Proofs.C02R6Solo
 
 set_option linter.unusedVariables false
 
@@ -1045,4 +1046,44 @@ example : Accepted (NewOnceConf 3) ∧ ∃ A, Reach (.running (inst (flat (toTre
   · simp [LogMono]
 
 end compose
+/-! ## F. The one-caller model is the regenerated sections run by one caller (round 6) -/
+
+section solo
+open Pandora.Proofs.C02R6
+
+/-- **The one-caller model of `Next` / `Left` (`compNext`, `compLeft` — what `C02_tree_refines`, `C02_seq_refines`,
+`C02_double_start`, `C02_huge_refines`, `C02_big_refines`, `C02_factory_*` are about) is the concurrent model run by one
+caller**, and every action of the concurrent model is a section regenerated from composite.go: a caller that performs
+its atomic actions back to back (`soloCall`: follow `runSection` until the call returns) gets exactly the result and the
+state of `compNext` / `compLeft` (a panic is a panic), for every composite over any children, any `leftAfter`, started
+or not; and `runSection` dispatches to the prologue `started.Store(true)`, the regenerated reader / writer sections of
+`Next`, the regenerated writer section of `Left` and `leftReader` (whose decision is the regenerated
+`compositeSchedule_Left_decide`, `C02_left_is_source`).  So no hand-written reading of composite.go is left that is
+tied by correspondence only. -/
+theorem C02_seq_is_sections {σ : Type} (ops : Ops σ) :
+    (∀ (s : Sh σ) (c : σ) (rest : List σ), s.cs = c :: rest → ∀ now : Int,
+      soloCall ops .next (2 * rest.length + 2) s .idle now = nextRes (compNext ops ⟨s.cs, s.la, s.started⟩ now) ∧
+      soloCall ops .left (2 * rest.length + 1) s .idle now = leftRes (compLeft ops ⟨s.cs, s.la, s.started⟩ now)) ∧
+    (∀ (sh : Sh σ) (pc : Pc) (op : Op) (t : Int), runSection ops sh pc op t =
+      match pc, op with
+      | .idle, .next => ({ sh with started := true }, .goto .nextB)
+      | .idle, .left => leftReader ops sh t
+      | .nextB, _ => Pandora.Gen.C02Src.compositeSchedule_Next_reader ops sh t
+      | .nextW tx seen, _ => Pandora.Gen.C02Src.compositeSchedule_Next_writer ops sh tx seen t
+      | .leftW seen, _ => Pandora.Gen.C02Src.compositeSchedule_Left_writer ops sh seen t) := by
+  refine ⟨fun s c rest hcs now => ⟨solo_next ops s c rest hcs now, solo_left ops s c rest hcs now⟩, ?_⟩
+  intro sh pc op t
+  cases pc with
+  | idle => cases op <;> rfl
+  | nextB => simp only [runSection]; exact (Pandora.Bridge.C02Src.nextReader_is_source ops sh t).symm
+  | nextW tx seen => simp only [runSection]; exact (Pandora.Bridge.C02Src.nextWriter_is_source ops sh tx seen t).symm
+  | leftW seen => simp only [runSection]; exact (Pandora.Bridge.C02Src.leftWriter_is_source ops sh seen t).symm
+
+-- non-vacuity: composite[exhausted part of duration 5 started at 0; once(1)], one caller, clock 9: the solo run goes
+-- through started.Store, the reader section, the writer section (shift, start at 5) and returns the token at 5;
+-- then `Left` = 0
+example : (soloCall leafOps .next 4 ⟨[Leaf.fin [] 5 0 (some 0), Leaf.fin [0] 0 0 none], [1, 0], false⟩ .idle 9).2 = .tok 5 true ∧
+    (soloCall leafOps .left 3 ⟨[Leaf.fin [0] 0 1 (some 5)], [0], true⟩ .idle 9).2 = .cnt 0 := by decide
+
+end solo
 end Pandora.Props.C02
